@@ -1,7 +1,8 @@
 #!/bin/bash
 # regress.sh: re-run the quick tier against every kept seeded change (expected: exit 1)
 # and every neutral patch (expected: exit 0). Prints one line each; exit 1 if any differs.
-cd /verif || exit 2
+cd "$(dirname "$0")/.." || exit 2
+V="$(pwd)"
 bad=0
 run() { # patch prop expected
   out=$(./dsim/try_mutant.sh "$1" "$2" quick 2>&1); rc=$?
@@ -11,15 +12,15 @@ run() { # patch prop expected
 }
 for d in seeded/*/; do
   id=$(basename "$d"); prop=${id%%-*}
-  run "/verif/${d}patch.diff" "$prop" 1
+  run "$V/${d}patch.diff" "$prop" 1
 done
 for p in mutants/*.patch; do
   n=$(basename "$p" .patch)
   case "$n" in
-    neutral-c10-*) run "/verif/$p" C10 0;; neutral-c11-*) run "/verif/$p" C11 0;; neutral-c12-*) run "/verif/$p" C12 0; run "/verif/$p" C11 0;; neutral-c14-*) run "/verif/$p" C14 0;; neutral-c18-*) run "/verif/$p" C18 0;;
-    c14-rbuf-reused) run "/verif/$p" C14 0;;
-    revert-F1) run "/verif/$p" C10 1;; revert-F2) run "/verif/$p" C11 1; run "/verif/$p" C12 1;; revert-F3) run "/verif/$p" C18 1;; revert-F4) run "/verif/$p" C08 1;;
-    c10-*) run "/verif/$p" C10 1;; c11-*) run "/verif/$p" C11 1;; c13-*) run "/verif/$p" C13 1;; c14-*) run "/verif/$p" C14 1;;
+    neutral-c10-*) run "$V/$p" C10 0;; neutral-c11-*) run "$V/$p" C11 0;; neutral-c12-*) run "$V/$p" C12 0; run "$V/$p" C11 0;; neutral-c14-*) run "$V/$p" C14 0;; neutral-c18-*) run "$V/$p" C18 0;;
+    c14-rbuf-reused) run "$V/$p" C14 0;;
+    revert-F1) run "$V/$p" C10 1;; revert-F2) run "$V/$p" C11 1; run "$V/$p" C12 1;; revert-F3) run "$V/$p" C18 1;; revert-F4) run "$V/$p" C08 1;;
+    c10-*) run "$V/$p" C10 1;; c11-*) run "$V/$p" C11 1;; c13-*) run "$V/$p" C13 1;; c14-*) run "$V/$p" C14 1;;
   esac
 done
 exit $bad
